@@ -1109,6 +1109,31 @@ pub fn c06(tier: Tier) -> i32 {
             .reduce(Acc::default, Acc::merge);
         rep.absorb("U-chain", &format!("every chain of <= {} nested containers (mixed array, array, inline table, table) around one leaf", depth), all.len() as u64, true, t0, acc);
     }
+    // every scalar value as a key and as a string leaf (alone, before a quotation mark, before a backslash), in every
+    // kind of container, through every construction route
+    {
+        let t0 = std::time::Instant::now();
+        let top = tier.pick(0xFFFFu32, 0x10FFFF);
+        let chars: Vec<char> = (0..=top).filter_map(char::from_u32).collect();
+        let acc = chars
+            .par_iter()
+            .fold(Acc::default, |mut acc, c| {
+                let k = c.to_string();
+                let s = |x: &str| T::Leaf(Leaf::S(x.to_string()));
+                let root = T::Tab(vec![
+                    (k.clone(), s(&k)),
+                    ("qq".to_string(), T::Arr(vec![s(&format!("{}\"", c)), s(&format!("{}\\", c))])),
+                    ("ii".to_string(), T::Inl(vec![(k.clone(), s(&k))])),
+                    ("tt".to_string(), T::Tab(vec![(k.clone(), T::Arr(vec![s(&k)]))])),
+                    ("uu".to_string(), T::Aot(vec![vec![(k.clone(), s(&k))]])),
+                ]);
+                acc.evals += 1;
+                check_tree(&root, &mut acc);
+                acc
+            })
+            .reduce(Acc::default, Acc::merge);
+        rep.absorb("U-char", &format!("every scalar value up to U+{:X} as a key and as a string leaf (alone, before a quotation mark, before a backslash) in a table, array, inline table, sub-table and array of tables", top), chars.len() as u64, true, t0, acc);
+    }
     api_state_family(&mut rep);
     rep.finish()
 }
